@@ -686,4 +686,209 @@ def rejected (r : Except Err (List Tok)) : Bool := match r with | .error .lexica
 example : rejected (lex Gen.cfgS "(a".toList) = true ∧ rejected (lex Gen.cfgS "a)".toList) = true ∧
     (lex Gen.cfgS "(a)".toList).isOk = true := by decide +kernel
 
+/-! ### decimal, hex and bit literals -/
+
+/-- a literal that runs to the end of the text: `pre` leads into the state `sLoop`, in which every character of class
+`P` is taken; at the end of the text the window is emitted with marks `k` -/
+theorem lit_at_end (pre : List Char) (sLoop : S) (P : Char → Prop) (k : Nat)
+    (hpre : ∀ text, feedAllWith (handle Gen.cfgS text) pre {} = .ok ⟨0, pre.length, sLoop, [[]]⟩)
+    (hloop : ∀ c, P c → Gen.cfgS.lookup sLoop (.ch c) = some (addTo sLoop))
+    (hend : Gen.cfgS.lookup sLoop .eof = some (emitAtEnd k))
+    (body : List Char) (hb : ∀ c ∈ body, P c) (hpl : ∀ c ∈ pre ++ body, plain c = true) :
+    lex Gen.cfgS (pre ++ body) = .ok [.single (pre ++ body) k] := by
+  rw [lex_plain _ _ hpl]
+  have hrun : feedAllWith (handle Gen.cfgS (pre ++ body)) (pre ++ body) {} =
+      .ok ⟨0, pre.length + body.length, sLoop, [[]]⟩ := by
+    rw [feedAllWith_append_ok (hpre _)]
+    exact feedAll_loop shipped_code P hloop body hb 0 pre.length [[]]
+  rw [lexText_ok hrun (handle_emitAtEnd shipped_code (m := ⟨0, pre.length + body.length, sLoop, [[]]⟩) hend rfl)]
+  rw [finish_end _ shipped_depth shipped_end]
+  have hw : win (pre ++ body) ⟨0, pre.length + body.length, sLoop, [[]]⟩ (pre.length + body.length) = pre ++ body := by
+    have := win_all (pre ++ body) (pre.length + body.length) sLoop [[]]
+    simpa using this
+  rw [hw]; rfl
+
+/-- a literal closed by a quote character `q` -/
+theorem lit_closed (pre : List Char) (sLoop : S) (P : Char → Prop) (k : Nat) (q : Char)
+    (hpre : ∀ text, feedAllWith (handle Gen.cfgS text) pre {} = .ok ⟨0, pre.length, sLoop, [[]]⟩)
+    (hloop : ∀ c, P c → Gen.cfgS.lookup sLoop (.ch c) = some (addTo sLoop))
+    (hclose : Gen.cfgS.lookup sLoop (.ch q) = some (emitWith k))
+    (hopenEnd : Gen.cfgS.lookup sLoop .eof = some reject)
+    (body : List Char) (hb : ∀ c ∈ body, P c) (hpl : ∀ c ∈ pre ++ body ++ [q], plain c = true) :
+    lex Gen.cfgS (pre ++ body ++ [q]) = .ok [.single (pre ++ body ++ [q]) k] ∧
+    lex Gen.cfgS (pre ++ body) = .error .lexical := by
+  have hrun : ∀ text, feedAllWith (handle Gen.cfgS text) (pre ++ body) {} =
+      .ok ⟨0, pre.length + body.length, sLoop, [[]]⟩ := fun text => by
+    rw [feedAllWith_append_ok (hpre _)]
+    exact feedAll_loop shipped_code P hloop body hb 0 pre.length [[]]
+  constructor
+  · rw [lex_plain _ _ hpl]
+    have h2 := handle_emitWith shipped_code (text := pre ++ body ++ [q]) (m := ⟨0, pre.length + body.length, sLoop, [[]]⟩)
+      hclose rfl
+    have hw : win (pre ++ body ++ [q]) ⟨0, pre.length + body.length, sLoop, [[]]⟩ (pre.length + body.length + 1) =
+        pre ++ body ++ [q] := by
+      have hlen : pre.length + body.length + 1 = (pre ++ body ++ [q]).length := by simp; omega
+      rw [hlen]; exact win_all _ _ _ _
+    have hall : feedAllWith (handle Gen.cfgS (pre ++ body ++ [q])) (pre ++ body ++ [q]) {} =
+        .ok ⟨pre.length + body.length + 1, pre.length + body.length + 1, .WAIT, [[.single (pre ++ body ++ [q]) k]]⟩ := by
+      rw [feedAllWith_append_ok (hrun _), feedAllWith_one, feedWith_adv h2]
+      show Except.ok (⟨pre.length + body.length + 1, pre.length + body.length + 1, .WAIT,
+        [[] ++ [.single (win (pre ++ body ++ [q]) ⟨0, pre.length + body.length, sLoop, [[]]⟩ (pre.length + body.length + 1)) k]]⟩ : Mem) = _
+      rw [hw]; rfl
+    rw [lexText_ok hall (handle_finish shipped_code (m := ⟨_, _, .WAIT, _⟩) wait_end)]
+    exact finish_end _ shipped_depth shipped_end _ _ _
+  · rw [lex_plain _ _ (fun c hc => hpl c (by simp only [List.mem_append] at hc ⊢; exact Or.inl hc))]
+    exact lexText_err_eof (hrun _) (handle_reject shipped_code (m := ⟨0, pre.length + body.length, sLoop, [[]]⟩) hopenEnd)
+
+theorem two_steps (a b : Char) (s1 s2 : S) (h1 : Gen.cfgS.lookup .WAIT (.ch a) = some (addTo s1))
+    (h2 : Gen.cfgS.lookup s1 (.ch b) = some (addTo s2)) (text : List Char) :
+    feedAllWith (handle Gen.cfgS text) [a, b] {} = .ok ⟨0, [a, b].length, s2, [[]]⟩ := by
+  have e1 := handle_addTo shipped_code (text := text) (m := ({} : Mem)) h1
+  have e2 := handle_addTo shipped_code (text := text) (m := ⟨0, 1, s1, [[]]⟩) h2
+  rw [feedAllWith_cons_adv e1, feedAllWith_cons_adv e2]; rfl
+
+theorem hex_ascii (n : Nat) (h : n ∉ ascii) : isHexDigit n = false := by
+  cases hd : isHexDigit n with
+  | false => rfl
+  | true =>
+    refine absurd ((isAscii_iff n).mp ?_) h
+    simp only [isHexDigit, isDigit, between, Bool.or_eq_true, Bool.and_eq_true, Nat.ble_eq] at hd
+    simp only [isAscii, Bool.or_eq_true, Bool.and_eq_true, Nat.beq_eq, Nat.ble_eq]
+    have : '0'.toNat = 48 ∧ '9'.toNat = 57 ∧ 'A'.toNat = 65 ∧ 'F'.toNat = 70 ∧ 'a'.toNat = 97 ∧ 'f'.toNat = 102 := by decide
+    omega
+
+theorem bit_ascii (n : Nat) (h : n ∉ ascii) : isBit n = false := by
+  cases hd : isBit n with
+  | false => rfl
+  | true =>
+    refine absurd ((isAscii_iff n).mp ?_) h
+    simp only [isBit, isCh, Bool.or_eq_true, Nat.beq_eq] at hd
+    simp only [isAscii, Bool.or_eq_true, Bool.and_eq_true, Nat.beq_eq, Nat.ble_eq]
+    have : '0'.toNat = 48 ∧ '1'.toNat = 49 := by decide
+    omega
+
+theorem hex_plain (c : Char) (h : isHexDigit c.toNat = true) : plain c = true := by
+  have : ∀ p0 : Char, isHexDigit p0.toNat = false → (p0 != c) = true := by
+    intro p0 hp
+    cases hb : p0 != c with
+    | true => rfl
+    | false =>
+      have : p0 = c := by simpa using hb
+      rw [this, h] at hp; cases hp
+  simp only [plain, Plain, Gen.preChain, List.all_cons, List.all_nil, Bool.and_true, Bool.and_eq_true]
+  exact ⟨this _ (by decide), this _ (by decide), this _ (by decide)⟩
+
+theorem bit_hex (n : Nat) (h : isBit n = true) : isHexDigit n = true := by
+  simp only [isBit, isCh, Bool.or_eq_true, Nat.beq_eq] at h
+  rcases h with rfl | rfl <;> decide
+
+theorem plain_app {a b : List Char} (ha : ∀ c ∈ a, plain c = true) (hb : ∀ c ∈ b, plain c = true) :
+    ∀ c ∈ a ++ b, plain c = true := by
+  intro c hc
+  rcases List.mem_append.mp hc with h | h
+  · exact ha c h
+  · exact hb c h
+
+/-- **C05.decimal_literal**: digits, a point, digits (possibly none: `1.` is a decimal literal) lex to exactly one
+LITERAL|LITERAL_FLOAT token. -/
+theorem decimal_literal (ds fs : List Char) (hne : ds ≠ []) (hd : ∀ c ∈ ds, isDigit c.toNat = true)
+    (hf : ∀ c ∈ fs, isDigit c.toNat = true) :
+    lex Gen.cfgS (ds ++ ['.'] ++ fs) = .ok [.single (ds ++ ['.'] ++ fs) (Gen.mark_LITERAL ||| Gen.mark_LITERAL_FLOAT)] := by
+  have hpre : ∀ text, feedAllWith (handle Gen.cfgS text) (ds ++ ['.']) {} = .ok ⟨0, (ds ++ ['.']).length, .IN_FLOAT, [[]]⟩ := by
+    intro text
+    obtain ⟨q, hq, hrun⟩ := int_prefix text ds hne hd
+    have hdot : Gen.cfgS.lookup q (.ch '.') = some (addTo .IN_FLOAT) := by
+      rcases hq with rfl | rfl <;> exact look (by decide +kernel)
+    have h1 := handle_addTo shipped_code (text := text) (m := ⟨0, ds.length, q, [[]]⟩) hdot
+    rw [feedAllWith_append_ok hrun, feedAllWith_one, feedWith_adv h1]
+    simp
+  exact lit_at_end (ds ++ ['.']) .IN_FLOAT (fun c => isDigit c.toNat = true) _ hpre
+    (fun c hc => lookClass .IN_FLOAT isDigit _ (by decide +kernel) (Or.inr digit_ascii) c hc)
+    (lookEnd (by decide +kernel)) fs hf
+    (plain_app (plain_app (fun c hc => digit_plain c (hd c hc)) (by decide)) (fun c hc => digit_plain c (hf c hc)))
+
+/-- **C05.hex_literal**: `0x` + hex digits is one LITERAL|LITERAL_HEX token; so are `x'…'`, `X'…'`, `x"…"`, `X"…"` around
+hex digits, and the unterminated forms of the latter are rejected.  (KNOWN: the digits may be none — `0x` alone is
+accepted as a literal, see `Spec.notExpressible`.) -/
+theorem hex_literal (hs : List Char) (hh : ∀ c ∈ hs, isHexDigit c.toNat = true) :
+    lex Gen.cfgS ("0x".toList ++ hs) = .ok [.single ("0x".toList ++ hs) (Gen.mark_LITERAL ||| Gen.mark_LITERAL_HEX)] ∧
+    (∀ x ∈ ['x', 'X'], ∀ q ∈ ['\'', '"'],
+      lex Gen.cfgS ([x, q] ++ hs ++ [q]) = .ok [.single ([x, q] ++ hs ++ [q]) (Gen.mark_LITERAL ||| Gen.mark_LITERAL_HEX)] ∧
+      lex Gen.cfgS ([x, q] ++ hs) = .error .lexical) := by
+  have hpl : ∀ c ∈ hs, plain c = true := fun c hc => hex_plain c (hh c hc)
+  constructor
+  · exact lit_at_end "0x".toList .IN_HEX_LITERAL_AFTER_0X (fun c => isHexDigit c.toNat = true) _
+      (two_steps '0' 'x' .AFTER_0 _ (look (by decide +kernel)) (look (by decide +kernel)))
+      (fun c hc => lookClass .IN_HEX_LITERAL_AFTER_0X isHexDigit _ (by decide +kernel) (Or.inr hex_ascii) c hc)
+      (lookEnd (by decide +kernel)) hs hh (plain_app (by decide) hpl)
+  · intro x hx q hq
+    have hsq := fun c hc => lookClass .IN_HEX_LITERAL_OF_SINGLE_QUOTE isHexDigit (addTo .IN_HEX_LITERAL_OF_SINGLE_QUOTE)
+      (by decide +kernel) (Or.inr hex_ascii) c hc
+    have hdq := fun c hc => lookClass .IN_HEX_LITERAL_OF_DOUBLE_QUOTE isHexDigit (addTo .IN_HEX_LITERAL_OF_DOUBLE_QUOTE)
+      (by decide +kernel) (Or.inr hex_ascii) c hc
+    simp only [List.mem_cons, List.mem_nil_iff, or_false] at hx hq
+    rcases hx with rfl | rfl <;> rcases hq with rfl | rfl
+    · exact lit_closed ['x', '\''] .IN_HEX_LITERAL_OF_SINGLE_QUOTE (fun c => isHexDigit c.toNat = true) _ '\''
+        (two_steps 'x' '\'' .AFTER_X _ (look (by decide +kernel)) (look (by decide +kernel))) hsq
+        (look (by decide +kernel)) (lookEnd (by decide +kernel)) hs hh (plain_app (plain_app (by decide) hpl) (by decide))
+    · exact lit_closed ['x', '"'] .IN_HEX_LITERAL_OF_DOUBLE_QUOTE (fun c => isHexDigit c.toNat = true) _ '"'
+        (two_steps 'x' '"' .AFTER_X _ (look (by decide +kernel)) (look (by decide +kernel))) hdq
+        (look (by decide +kernel)) (lookEnd (by decide +kernel)) hs hh (plain_app (plain_app (by decide) hpl) (by decide))
+    · exact lit_closed ['X', '\''] .IN_HEX_LITERAL_OF_SINGLE_QUOTE (fun c => isHexDigit c.toNat = true) _ '\''
+        (two_steps 'X' '\'' .AFTER_X _ (look (by decide +kernel)) (look (by decide +kernel))) hsq
+        (look (by decide +kernel)) (lookEnd (by decide +kernel)) hs hh (plain_app (plain_app (by decide) hpl) (by decide))
+    · exact lit_closed ['X', '"'] .IN_HEX_LITERAL_OF_DOUBLE_QUOTE (fun c => isHexDigit c.toNat = true) _ '"'
+        (two_steps 'X' '"' .AFTER_X _ (look (by decide +kernel)) (look (by decide +kernel))) hdq
+        (look (by decide +kernel)) (lookEnd (by decide +kernel)) hs hh (plain_app (plain_app (by decide) hpl) (by decide))
+
+/-- **C05.bit_literal**: `0b` + binary digits is one LITERAL|LITERAL_BIT token; so are `b'…'`, `B'…'`, `b"…"`, `B"…"`
+around binary digits, and the unterminated forms of the latter are rejected. -/
+theorem bit_literal (bs : List Char) (hb : ∀ c ∈ bs, isBit c.toNat = true) :
+    lex Gen.cfgS ("0b".toList ++ bs) = .ok [.single ("0b".toList ++ bs) (Gen.mark_LITERAL ||| Gen.mark_LITERAL_BIT)] ∧
+    (∀ x ∈ ['b', 'B'], ∀ q ∈ ['\'', '"'],
+      lex Gen.cfgS ([x, q] ++ bs ++ [q]) = .ok [.single ([x, q] ++ bs ++ [q]) (Gen.mark_LITERAL ||| Gen.mark_LITERAL_BIT)] ∧
+      lex Gen.cfgS ([x, q] ++ bs) = .error .lexical) := by
+  have hpl : ∀ c ∈ bs, plain c = true := fun c hc => hex_plain c (bit_hex _ (hb c hc))
+  constructor
+  · exact lit_at_end "0b".toList .IN_BIT_LITERAL_AFTER_0B (fun c => isBit c.toNat = true) _
+      (two_steps '0' 'b' .AFTER_0 _ (look (by decide +kernel)) (look (by decide +kernel)))
+      (fun c hc => lookClass .IN_BIT_LITERAL_AFTER_0B isBit _ (by decide +kernel) (Or.inr bit_ascii) c hc)
+      (lookEnd (by decide +kernel)) bs hb (plain_app (by decide) hpl)
+  · intro x hx q hq
+    have hsq := fun c hc => lookClass .IN_BIT_LITERAL_OF_SINGLE_QUOTE isBit (addTo .IN_BIT_LITERAL_OF_SINGLE_QUOTE)
+      (by decide +kernel) (Or.inr bit_ascii) c hc
+    have hdq := fun c hc => lookClass .IN_BIT_LITERAL_OF_DOUBLE_QUOTE isBit (addTo .IN_BIT_LITERAL_OF_DOUBLE_QUOTE)
+      (by decide +kernel) (Or.inr bit_ascii) c hc
+    simp only [List.mem_cons, List.mem_nil_iff, or_false] at hx hq
+    rcases hx with rfl | rfl <;> rcases hq with rfl | rfl
+    · exact lit_closed ['b', '\''] .IN_BIT_LITERAL_OF_SINGLE_QUOTE (fun c => isBit c.toNat = true) _ '\''
+        (two_steps 'b' '\'' .AFTER_B _ (look (by decide +kernel)) (look (by decide +kernel))) hsq
+        (look (by decide +kernel)) (lookEnd (by decide +kernel)) bs hb (plain_app (plain_app (by decide) hpl) (by decide))
+    · exact lit_closed ['b', '"'] .IN_BIT_LITERAL_OF_DOUBLE_QUOTE (fun c => isBit c.toNat = true) _ '"'
+        (two_steps 'b' '"' .AFTER_B _ (look (by decide +kernel)) (look (by decide +kernel))) hdq
+        (look (by decide +kernel)) (lookEnd (by decide +kernel)) bs hb (plain_app (plain_app (by decide) hpl) (by decide))
+    · exact lit_closed ['B', '\''] .IN_BIT_LITERAL_OF_SINGLE_QUOTE (fun c => isBit c.toNat = true) _ '\''
+        (two_steps 'B' '\'' .AFTER_B _ (look (by decide +kernel)) (look (by decide +kernel))) hsq
+        (look (by decide +kernel)) (lookEnd (by decide +kernel)) bs hb (plain_app (plain_app (by decide) hpl) (by decide))
+    · exact lit_closed ['B', '"'] .IN_BIT_LITERAL_OF_DOUBLE_QUOTE (fun c => isBit c.toNat = true) _ '"'
+        (two_steps 'B' '"' .AFTER_B _ (look (by decide +kernel)) (look (by decide +kernel))) hdq
+        (look (by decide +kernel)) (lookEnd (by decide +kernel)) bs hb (plain_app (plain_app (by decide) hpl) (by decide))
+
+/-- non-vacuity, and the marks as numbers: FLOAT 136, HEX 24, BIT 40 -/
+example : lexesTo (lex Gen.cfgS "3.14".toList) [.single "3.14".toList 136] = true ∧
+    lexesTo (lex Gen.cfgS "0x1fA".toList) [.single "0x1fA".toList 24] = true ∧
+    lexesTo (lex Gen.cfgS "X\"1F\"".toList) [.single "X\"1F\"".toList 24] = true ∧
+    lexesTo (lex Gen.cfgS "b'0110'".toList) [.single "b'0110'".toList 40] = true ∧
+    lexesTo (lex Gen.cfgS "0b01".toList) [.single "0b01".toList 40] = true ∧
+    rejected (lex Gen.cfgS "x'1F".toList) = true ∧ rejected (lex Gen.cfgS "x'1G'".toList) = true := by decide +kernel
+
+/-- KNOWN departures that are not cells of the automaton (`Spec.notExpressible`), exhibited on the model: `.5` is two
+tokens, `1e5` is a NAME word, `0x` without digits is a hex literal, and the bracket stack is untyped (`(a]`) -/
+theorem witness_not_expressible :
+    lexesTo (lex Gen.cfgS ".5".toList) [.single ['.'] 0, .single ['5'] 72] = true ∧
+    lexesTo (lex Gen.cfgS "1e5".toList) [.single "1e5".toList 2] = true ∧
+    lexesTo (lex Gen.cfgS "0x".toList) [.single "0x".toList 24] = true ∧
+    rejected (lex Gen.cfgS "1.5e3".toList) = true ∧
+    lexesTo (lex Gen.cfgS "(a]".toList) [.group .slice [.single ['a'] 2] 512] = true := by decide +kernel
+
 end C05
